@@ -27,7 +27,7 @@ ASSUMPTIONS = [
 ]
 REQUIRED = {"all": ["type:WF", "type:LC", "type:LZW", "user_alphabets", "user_alphabet_switch_same_object",
                     "step_gt_1_partial_tail", "locality_windows", "wf_entropy_windows", "rejected_unknown_type",
-                    "rejected_long_window", "homopolymer_windows"]}
+                    "rejected_long_window", "homopolymer_windows", "step_ge_N", "numpy_int_arguments"]}
 SIZES = [2, 3, 4, 5, 6, 8, 10, 11, 12, 15, 18, 20]
 NSEQ = {"quick": 1000, "thorough": 8000}
 HI = {"quick": 40, "thorough": 150}
@@ -82,6 +82,12 @@ def judge(case, rep, S):
         w = rng.randint(1, N) if rng.random() < 0.8 else rng.choice([1, N, min(N, 10), max(1, N - 1)])
         s = rng.randint(1, N) if rng.random() < 0.5 else rng.choice([1, 1, 2, 3])
         ws = 3 if rng.random() < 0.5 else rng.randint(1, 6)
+        if rng.random() < 0.08:
+            s = rng.choice([N, N + 3, 10 * N])                 # step as long as / longer than the sequence: one window
+            rep.cnt("step_ge_N")
+        if rng.random() < 0.1:
+            w, s = np.int64(w), np.int64(s)
+            rep.cnt("numpy_int_arguments")
         desc = {"type": tspell, "size": None if ua else size, "user": ua, "w": w, "s": s, "word": ws}
         try:
             arr = call(obj, tspell, size, ua, w, s, ws, rng)
@@ -95,6 +101,7 @@ def judge(case, rep, S):
                 rep.cnt("user_alphabet_switch_same_object")
             prev_user = True
         a = np.asarray(arr, dtype=float)
+        w, s = int(w), int(s)
         K = (N - w) // s + 1
         if s > 1 and (N - w) % s != 0:
             rep.cnt("step_gt_1_partial_tail")
